@@ -38,7 +38,7 @@ fn main() {
                 let mut o = obs::Out::new();
                 match mode {
                     "hist" => hist::run_case(&cur, &mut o),
-                    "sp" => sp::run_case(&cur, &mut o),
+                    "sp" => { sp::run_case(&cur, &mut o); if sp::hung() { o.flush(&mut out); writeln!(out, "end").unwrap(); out.flush().unwrap(); std::process::exit(0); } }
                     _ => {
                         eprintln!("unknown mode {}", mode);
                         std::process::exit(2);
